@@ -1,5 +1,8 @@
 import OpusProofs.RepackMs
 import OpusProofs.RepackExtRound
+import OpusProofs.RepackInPlace
+import OpusProofs.RepackDecode
+import OpusProofs.RepackRanges
 import OpusProofs.ExtZero
 /-
   Property C07 — "Repacketizer, pad and unpad preserve frames and always emit valid packets".
@@ -14,7 +17,7 @@ import OpusProofs.ExtZero
   "Parses back": with `Opus.Framing.parseImpl`, proved in C06 to accept exactly RFC 6716 framing.
 -/
 namespace OpusProps.C07
-open Opus Opus.Framing Opus.FramingSpec Opus.Repack Opus.Ext Opus.RepackProofs Opus.ExtProofs
+open Opus Opus.Framing Opus.FramingSpec Opus.Repack Opus.Ext Opus.RepackProofs Opus.ExtProofs Opus.DecSkel
 
 /-- Clause "accepts a packet exactly when it is valid, configuration-compatible and keeps the total
     at or below 120 ms": in every reachable state, for every byte string. -/
@@ -376,6 +379,134 @@ theorem out_malformed_padding_dropped (s : Rp) (hs : Reachable s) (b e : Nat) (h
        (outPacket s.toc (selFrames s b e) maxlen sd pad).frames = selFrames s b e) :=
   ⟨outRangeImpl_dropped s (reachable_padsOk hs) b e hb he hnil maxlen sd pad,
    fun hfit => ⟨outPacket_valid _ _ (selFrames_ok s (reachable_inv hs) b e hb he).1 _ _ _ hfit, outPacket_frames _ _ _ _ _⟩⟩
+
+/-- In-place safety (P1), `opus_packet_unpad`: run on ONE byte array in the order of the C code — `cat`
+    stores frame offsets into the buffer, `out_range_impl` writes the new header over the start of the same
+    buffer and then moves the frames one by one with memmove (`OpusModel/RepackInPlace.lean`) — the first
+    `ret` bytes are exactly the result of the pure model (which reads frames from private copies): no frame
+    byte is overwritten before it is read; the buffer keeps its length (bytes past `ret` are stale). -/
+theorem unpad_in_place (p : Packet) (hv : Valid p) :
+    ∃ out X, packetUnpad (serialize false p) = .ok out ∧
+      packetUnpadInPlace (serialize false p) = .ok (out ++ X, out.length) ∧
+      (out ++ X).length = (serialize false p).length :=
+  packetUnpadInPlace_eq p hv
+
+/-- In-place safety, `opus_multistream_packet_unpad`: streams are unpadded front to back into the same
+    buffer (write position ≤ read position); the result equals the pure model's, for every number of
+    streams; later streams are read after earlier outputs were written and are never clobbered. -/
+theorem ms_unpad_in_place (ps : List Packet) (hne : ps ≠ []) (hv : ∀ p ∈ ps, Valid p) :
+    ∃ out X, msUnpad (msSerialize ps) ps.length = .ok out ∧
+      msUnpadInPlace (msSerialize ps) ps.length = .ok (out ++ X, out.length) ∧
+      (out ++ X).length = (msSerialize ps).length :=
+  msUnpadInPlace_eq ps hne hv
+
+/-- In-place safety, the heart of it: the frame-moving loop `OPUS_MOVE(ptr, frames[i], len[i])` on one
+    buffer `A ++ G ++ F ++ R` (write position `|A|`, frames `F` lying back to back from `|A|+|G|`): every
+    frame arrives intact, `A` and everything after the frames (`R`) is untouched.  (`opus_packet_pad` and
+    `opus_multistream_packet_pad` copy the packet to a separate buffer first — repacketizer.c:359-363 — so
+    for them source and destination never overlap and the pure model is exact.) -/
+theorem move_frames_safe (sizes : List Nat) (A G F R : Bytes) (hF : F.length = sumN sizes) :
+    ∃ X, X.length = G.length ∧
+      moveFrames (A ++ G ++ F ++ R) A.length (frameSlots (A.length + G.length) sizes) = A ++ F ++ X ++ R :=
+  moveFrames_spec sizes A G F R hF
+
+/-
+  Full statement (`pad_same_decode`), NOT proved — listed in `UNPROVED`: the decoder skeleton's oracle-call
+  log is identical for `x` and `pad x` up to the shift of the frame offsets.  That needs a two-run
+  simulation through C01's `frameLoop` (oracle arguments carry frame offsets); see the partial below.
+-/
+
+/-- Clause "same decoded audio" (partial): everything the decoder skeleton of C01 derives from the packet,
+    except the ADDRESS of the frame data, is identical for a valid packet `x` and `pad x`: the same frame
+    sizes in the same order, byte-identical frames, the same frame duration / mode / bandwidth / channel count
+    (the TOC differs only in the two frame-count-code bits), and hence the same return value (number of
+    samples, or error) and `last_packet_duration` of `opus_decode_native` in every decoder state, for every
+    `frame_size` and `decode_fec`.
+    MISSING for the full statement: equality of the inner oracle-call log (SILK/CELT/range-decoder calls)
+    modulo the frame-offset shift `r'.payloadOffset - r.payloadOffset`. -/
+theorem pad_same_decode_partial (bs : Bytes) (hb : BytesOk bs) (r : Parsed) (h : parseImpl false bs = .ok r)
+    (hfree : Ext.count ((bs.drop r.padOffset).take r.padLen) r.padLen r.count = .ok 0)
+    (newLen : Int) (hge : (bs.length : Int) ≤ newLen) :
+    ∃ o r', packetPad bs newLen = .ok o ∧ parseImpl false o = .ok r' ∧ r'.sizes = r.sizes ∧
+      slices o r'.payloadOffset r'.sizes = slices bs r.payloadOffset r.sizes ∧
+      (∀ fs, samplesPerFrame (o.headD 0) fs = samplesPerFrame (bs.headD 0) fs) ∧
+      getMode (o.headD 0) = getMode (bs.headD 0) ∧ getBandwidth (o.headD 0) = getBandwidth (bs.headD 0) ∧
+      getNbChannels (o.headD 0) = getNbChannels (bs.headD 0) ∧
+      ∀ (st : DecState) (frame_size fec : Int),
+        nativeRet st (some o) o.length frame_size fec false = nativeRet st (some bs) bs.length frame_size fec false := by
+  obtain ⟨o, r', hpad, _, hparse, hsl, htoc⟩ := pad_spec bs hb r h hfree newLen hge
+  have hlen : ∀ (x : Bytes) (q : Parsed), BytesOk x → parseImpl false x = .ok q →
+      q.sizes = (slices x q.payloadOffset q.sizes).map List.length ∧ q.toc = x.headD 0 ∧ q.count = q.sizes.length := by
+    intro x q hx hq
+    obtain ⟨p, hv, hxs, hview, _, hfr⟩ := packet_of_parse x hx q hq
+    obtain ⟨t, ht⟩ := serialize_cons false p []
+    simp only [List.append_nil] at ht
+    rw [hfr, hview, hxs, ht]
+    exact ⟨rfl, rfl, by simp [view, Packet.lens]⟩
+  -- `o` is a byte string: it parses, so use the spec packet directly
+  obtain ⟨p, hv, hbs, hview, _, hfr⟩ := packet_of_parse bs hb r h
+  have hsz : r'.sizes = r.sizes ∧ r'.toc = o.headD 0 ∧ r'.count = r.count := by
+    by_cases heq : (bs.length : Int) = newLen
+    · have : packetPad bs newLen = .ok bs := by
+        rw [← heq]; apply pad_same
+        rw [hbs]; obtain ⟨t, ht⟩ := serialize_cons false p []; simp at ht; rw [ht]; simp
+      rw [this] at hpad; cases hpad
+      rw [h] at hparse; cases hparse
+      exact ⟨rfl, (hlen bs r hb h).2.1, rfl⟩
+    · have hpf : PadFree p := by
+        unfold PadFree
+        obtain ⟨_, _, _, hview2, hpad2, _⟩ := packet_of_parse bs hb r h
+        have hpp : (bs.drop r.padOffset).take r.padLen = padBytes p := by
+          rw [hview, hbs]; exact padding_of_serialize false p [] |> fun e => by simpa using e
+        rw [← hpp]
+        have : ((bs.drop r.padOffset).take r.padLen).length = r.padLen := by rw [hpp, hview]; rfl
+        rw [this]
+        have : p.frames.length = r.count := by rw [hview]; rfl
+        rw [this]; exact hfree
+      have hps := pad_serialize p hv hpf newLen (by rw [← hbs]; omega)
+      rw [← hbs, hpad] at hps; cases hps
+      have hok : FramesOk p.toc p.frames := ⟨hv.toc_byte, valid_ne p hv, hv.frame_max, valid_dur p hv⟩
+      have hmin := minSize_minimal false p hv
+      simp only [Packet.lens] at hmin
+      rw [← hbs] at hmin
+      have hv' := outPacket_valid p.toc p.frames hok newLen false true (by omega)
+      have hpc := FramingProofs.parse_complete false _ hv' [] (fun _ => rfl)
+      simp only [List.append_nil] at hpc
+      rw [hpc] at hparse; cases hparse
+      obtain ⟨t, ht⟩ := serialize_cons false (outPacket p.toc p.frames newLen false true) []
+      simp only [List.append_nil] at ht
+      refine ⟨?_, by rw [ht]; rfl, ?_⟩
+      · simp only [view, Packet.lens, outPacket_frames]; rw [hview]; rfl
+      · simp only [view, outPacket_frames]; rw [hview]; rfl
+  have ht4 : o.headD 0 / 4 = bs.headD 0 / 4 := by
+    rw [← hsz.2.1, htoc, (hlen bs r hb h).2.1]
+  have hc := toc_helpers_congr _ _ ht4
+  refine ⟨o, r', hpad, hparse, hsz.1, hsl, fun fs => (hc fs).1, (hc 0).2.1, (hc 0).2.2.1, (hc 0).2.2.2, ?_⟩
+  intro st frame_size fec
+  exact nativeRet_congr st o bs false false r' r frame_size fec hparse h ht4 hsz.2.2
+
+/-- `int_ranges` (extension-free paths): on every reachable state and valid range the sizes the code adds
+    up lie in `[1, 61298]`; with `maxlen` any `opus_int32`, the padding arithmetic (`pad_amount`, `nb_255s`,
+    the re-check `tot_size + nb_255s + 1 > maxlen` — which never fires —, the final length byte, the final
+    `tot_size`) stays inside `opus_int32`; the 120 ms product in `cat` is at most 53280; every stored
+    `len[i]` fits `opus_int16`.  So the unbounded-integer model and the 32-bit code agree there. -/
+theorem int_ranges_noext (s : Rp) (hs : Reachable s) (b e : Nat) (hb : b < e) (he : e ≤ s.nbFrames) (sd : Bool)
+    (maxlen : Int) (hm : I32 maxlen) :
+    (1 ≤ minSize sd ((selFrames s b e).map List.length) ∧
+     minSize sd ((selFrames s b e).map List.length) ≤
+       tot3 ((selFrames s b e).map List.length) (sdSize sd (((selFrames s b e).map List.length).getLastD 0)) ∧
+     tot3 ((selFrames s b e).map List.length) (sdSize sd (((selFrames s b e).map List.length).getLastD 0)) ≤ 61298) ∧
+    (∀ tot : Int, 2 ≤ tot ∧ tot ≤ 61298 → tot ≤ maxlen →
+       I32 (maxlen - tot) ∧ I32 ((maxlen - tot - 1) / 255) ∧ I32 (tot + (maxlen - tot - 1) / 255 + 1) ∧
+       I32 (tot + (maxlen - tot)) ∧ (1 ≤ maxlen - tot → tot + (maxlen - tot - 1) / 255 + 1 ≤ maxlen) ∧
+       I32 (maxlen - tot - 255 * ((maxlen - tot - 1) / 255) - 1)) ∧
+    (∀ (curr b0 : Nat), curr ≤ 63 → b0 < 256 →
+       (curr + (withToc s b0).nbFrames) * (withToc s b0).framesize ≤ 53280) ∧
+    (∀ f ∈ s.frames, f.length ≤ 32767) :=
+  ⟨sel_size_ranges s (reachable_inv hs) b e hb he sd,
+   fun tot ht hfit => pad_arith_ranges tot maxlen ht hm hfit,
+   fun curr b0 hc hb0 => (cat_arith_ranges s (reachable_inv hs) curr hc b0 hb0).1,
+   fun f hf => (cat_arith_ranges s (reachable_inv hs) 0 (by omega) 0 (by omega)).2 f hf⟩
 
 /-- The extension-free hypothesis is met by everything the library itself pads: zero padding (and no
     padding) has extension count 0 (`count_zeros` is C16's lemma), so packets produced by `out` with
